@@ -218,6 +218,19 @@ func TestVerifC05Edns(t *testing.T) {
 			r.Shuffle(len(down), func(i, j int) { down[i], down[j] = down[j], down[i] })
 		}
 
+		// The downstream options are recorded NOW: WriteMsg filters the OPT's option slice in place
+		// (keepRelayable / stripECS / stripKeepalive reuse the backing array and the writer's own
+		// keepalive is appended into it), so reading `down` after the call would describe what the
+		// code left behind, not what it was given.
+		downS := "None"
+		if hasDown {
+			var os []vC05O
+			for _, d := range down {
+				os = append(os, vC05O{int(d.Option()), vC05OptData(d)})
+			}
+			downS = "(Some " + vC05Opts(os) + ")"
+		}
+
 		reply := new(dns.Msg)
 		reply.SetQuestion("www.zero.test.", dns.TypeA)
 		reply.Response = true
@@ -286,14 +299,6 @@ func TestVerifC05Edns(t *testing.T) {
 		edeS := "None"
 		if ede != nil {
 			edeS = fmt.Sprintf("(Some (mk_eopt 15 %s))", vC05L(vC05OptData(ede)))
-		}
-		downS := "None"
-		if hasDown {
-			var os []vC05O
-			for _, d := range down {
-				os = append(os, vC05O{int(d.Option()), vC05OptData(d)})
-			}
-			downS = "(Some " + vC05Opts(os) + ")"
 		}
 		w := fmt.Sprintf("(mk_ewriter %s %s %d %s %s %s %s)", vC05B(noedns), vC05B(do), size, cookieS, nsidS, vC05B(keepalive), vC05Opts(reqOpts))
 		kind := "edns/tomsg"
